@@ -79,10 +79,50 @@ def _record(name, **ctx):
     pass
 
 
+def _parent_kill(name, executor=None, **ctx):
+    """Parent-side points (executor re-use / resize at the start of a call): kill idle worker(s) of the executor from
+    outside at exactly this instant and wait until they are dead (zombie or gone) before the parent continues."""
+    if not _DIR or executor is None:
+        return
+    call = _current_call()
+    for i, flt in enumerate(_PLAN.get("faults", ())):
+        if flt["point"] != name or flt["call"] != call:
+            continue
+        if _rank("%d-%s" % (i, name)) != 0:
+            continue            # once per fault
+        import time
+        pids = sorted(getattr(p, "pid", None) or 0 for p in list(executor._processes.values()))
+        pids = [p for p in pids if p]
+        victims = pids if flt.get("victims", "first") == "all" else pids[:1]
+        act = flt["action"] if flt["action"].startswith("SIG") else "SIGKILL"
+        for pid in victims:
+            try:
+                os.kill(pid, getattr(signal, act))
+            except OSError:
+                pass
+            with open(os.path.join(_DIR, "deaths"), "a") as f:
+                f.write("%d %s@%s\n" % (pid, act, name))
+        deadline = time.time() + 5
+        for pid in victims:
+            while time.time() < deadline:
+                try:
+                    with open("/proc/%d/stat" % pid) as f:
+                        state = f.read().rsplit(")", 1)[1].split()[0]
+                except (OSError, IndexError):
+                    break
+                if state in ("Z", "X"):
+                    break
+                time.sleep(0.002)
+
+
 HANDLERS = {
     "worker.before_get": _worker_point,
     "worker.after_get": _worker_point,
     "worker.after_run": _worker_point,
     "worker.after_send": _worker_point,
     "queue.in_send": _in_send,
+    "executor.reuse.before_check": _parent_kill,
+    "executor.resize.enter": _parent_kill,
+    "executor.resize.before_shrink_wait": _parent_kill,
+    "executor.resize.after_adjust": _parent_kill,
 }
